@@ -275,7 +275,9 @@ func vpC08RunParams(in []byte, aux int) (string, bool) {
 		if stopped {
 			afterStop++
 		}
-		fmt.Fprintf(&b, "%q=%q;", k, v)
+		if calls < 4096 { // (a runaway visitor loop must end in the watchdog, not in an out-of-memory kill)
+			fmt.Fprintf(&b, "%q=%q;", k, v)
+		}
 		calls++
 		if calls > aux {
 			stopped = true
